@@ -51,7 +51,10 @@ TARGETS = ['scalar_f', 'scalar_i', 'scalar_u', 'scalar_d', 'scalar0_d', 'vector'
            # derivatives that were broadcast to the object's shape when inserted (read-only views: item assignment gives
            # them arrays of their own first - seeded change C19-J skipped the denominator check on that path), and units
            # that carry an angle (seeded change C19-I: units differing only in the angle exponent were accepted)
-           'scalar_bderiv', 'scalar_deg']
+           'scalar_bderiv', 'scalar_deg',
+           # integer objects that carry derivatives (seeded change C19-O: `//= 2.5` dropped them before NumPy rejected
+           # the float divisor), with array values and as a shapeless item array
+           'scalar_i_d', 'vector_i_d', 'pair0_i_d']
 
 
 def make_target(name, Pm, readonly=False):
@@ -101,6 +104,16 @@ def make_target(name, Pm, readonly=False):
         x.insert_deriv('t', Pm.Scalar(2.5))
     elif name == 'scalar_deg':
         x = Pm.Scalar(A([10., 20., 30.]), units=Pm.Units.DEG)
+    elif name == 'scalar_i_d':
+        x = Pm.Scalar(A([7, 8, 9]), A([False, True, False]))
+        x.insert_deriv('t', Pm.Scalar(A([4., 5., 6.])))
+        x.insert_deriv('xy', Pm.Scalar(np.arange(6.).reshape(3, 2), drank=1))
+    elif name == 'vector_i_d':
+        x = Pm.Vector(np.arange(6).reshape(2, 3) + 1)
+        x.insert_deriv('t', Pm.Vector(np.ones((2, 3))))
+    elif name == 'pair0_i_d':
+        x = Pm.Pair(A([5, 7]))
+        x.insert_deriv('t', Pm.Pair(A([1., 2.])))
     elif name == 'scalar_bmask':
         x = Pm.Scalar(np.arange(6.).reshape(2, 3) + 1., A([False, True, False]))
     elif name == 'vector_bmask':
